@@ -11,7 +11,7 @@
 //	                                                  request log with the variables each template saw, samples
 //	inst <instances> <total> <tables> <reqs> <scens>  provider + several guns concurrently; rows seen per scenario
 //	iter <goroutines> <per> <len> <rounds>            real mp.NextIterator / GetMapValue from several goroutines;
-//	                                                  <rounds> start-ups with simultaneous first calls
+//	                                                  <rounds> start-ups per arena with simultaneous first calls
 package main
 
 import (
@@ -433,43 +433,12 @@ func runIter(f []string) string {
 			}
 		}
 	}
-	// start-up: fresh iterators, all goroutines make their FIRST calls at the same moment
+	// start-up: fresh iterators, all racers make their FIRST calls at the same moment
 	rounds := 0
 	if len(f) > 4 {
 		rounds, _ = strconv.Atoi(f[4])
 	}
-	startups := true
-	for r := 0; r < rounds && startups; r++ {
-		itr := mp.NewNextIterator(1)
-		var ready int32
-		vals := make([][]int, g)
-		for t := 0; t < g; t++ {
-			wg.Add(1)
-			go func(t int) {
-				defer wg.Done()
-				atomic.AddInt32(&ready, 1)
-				for spins := 0; atomic.LoadInt32(&ready) < int32(g); spins++ {
-					if spins%2000 == 1999 {
-						runtime.Gosched() // never starve the goroutines that are not yet running
-					}
-				}
-				for j := 0; j < 3; j++ {
-					vals[t] = append(vals[t], itr.Next(".s[next]"))
-				}
-			}(t)
-		}
-		wg.Wait()
-		var all []int
-		for t := 0; t < g; t++ {
-			all = append(all, vals[t]...)
-		}
-		sort.Ints(all)
-		for i, v := range all {
-			if v != i {
-				startups = false
-			}
-		}
-	}
+	startups := startupRounds(rounds)
 	// rows through the real path evaluation
 	rowsData := make([]map[string]string, ln)
 	for i := range rowsData {
@@ -505,6 +474,92 @@ func runIter(f []string) string {
 		cs = append(cs, strconv.FormatInt(c, 10))
 	}
 	return fmt.Sprintf("%s %s startups=%s errs=%d rows=%s", vh.B(exact), vh.B(mono), vh.B(startups), errs, strings.Join(cs, ","))
+}
+
+// startupRounds: `rounds` start-ups per arena. In every round a FRESH NextIterator is published and
+// startupRacers long-lived goroutines, released together by a spinning generation barrier, make
+// their first two Next calls on it; the 2*racers values must be exactly 0..2*racers-1.
+// Arenas run in parallel (as many as the cores allow).
+const startupRacers = 8
+
+func startupRounds(rounds int) bool {
+	if rounds <= 0 {
+		return true
+	}
+	arenas := runtime.GOMAXPROCS(0) / (startupRacers + 1)
+	if arenas < 1 {
+		arenas = 1
+	}
+	if arenas > 4 {
+		arenas = 4
+	}
+	var bad int64
+	var awg sync.WaitGroup
+	for a := 0; a < arenas; a++ {
+		awg.Add(1)
+		go func() {
+			defer awg.Done()
+			var gen, done atomic.Int64
+			var cur atomic.Pointer[mp.NextIterator]
+			vals := make([][2]int, startupRacers)
+			var rwg sync.WaitGroup
+			spin := func(cond func() bool) {
+				for n := 0; !cond(); n++ {
+					if n%4096 == 4095 {
+						runtime.Gosched() // never starve goroutines that are not running
+					}
+				}
+			}
+			for t := 0; t < startupRacers; t++ {
+				rwg.Add(1)
+				go func(t int) {
+					defer rwg.Done()
+					last := int64(0)
+					for {
+						spin(func() bool { return gen.Load() != last })
+						last = gen.Load()
+						if last < 0 {
+							return
+						}
+						it := cur.Load()
+						vals[t][0] = it.Next(".s[next]")
+						vals[t][1] = it.Next(".s[next]")
+						done.Add(1)
+					}
+				}(t)
+			}
+			seen := make([]bool, 2*startupRacers)
+			for r := 1; r <= rounds && atomic.LoadInt64(&bad) == 0; r++ {
+				cur.Store(mp.NewNextIterator(1))
+				done.Store(0)
+				gen.Store(int64(r))
+				spin(func() bool { return done.Load() == startupRacers })
+				for i := range seen {
+					seen[i] = false
+				}
+				ok := true
+				for t := 0; t < startupRacers; t++ {
+					for _, v := range vals[t] {
+						if v < 0 || v >= len(seen) || seen[v] {
+							ok = false
+						} else {
+							seen[v] = true
+						}
+					}
+				}
+				if !ok {
+					atomic.AddInt64(&bad, 1)
+					if os.Getenv("HC15_MEASURE") != "" {
+						fmt.Fprintf(os.Stderr, "startup: first bad round %d\n", r)
+					}
+				}
+			}
+			gen.Store(-1)
+			rwg.Wait()
+		}()
+	}
+	awg.Wait()
+	return bad == 0
 }
 
 func runCase(c string) string {
